@@ -1,4 +1,3 @@
-//verif:race
 // C14 — ByteStream / CAS / AC RPCs: uploads atomic and verified, reads return
 // the exact suffix, batch calls report per-object status, FindMissingBlobs
 // returns exactly what the backend reports, client+server back to back behave
@@ -25,10 +24,13 @@
 //
 // The backend is lib/model.Store wrapped by `backend` (common.go); the zstd
 // pools are the real ones wrapped by a counting pool.
+//
+//verif:race
 package main
 
 import (
 	"os"
+	"strings"
 	"time"
 
 	"verif/lib/run"
@@ -48,35 +50,36 @@ func main() {
 		CaseTimeout: 300 * time.Second, // the machine is shared; a hang is still caught by the dump test
 		Race:        true,
 		Floors: map[string]int64{
-			"write_valid":                           150,
-			"write_invalid_rejected":                250,
-			"write_invalid_first-offset-nonzero":    15,
-			"write_invalid_offset-gap":              15,
-			"write_invalid_offset-overlap":          15,
-			"write_invalid_no-finish-write":         15,
-			"write_invalid_content-mismatch":        10,
-			"write_invalid_size-mismatch":           15,
-			"write_invalid_zstd-stream-invalid":     8,
-			"write_invalid_malformed-resource-name": 10,
-			"write_ambiguous_messages-after-finish": 15,
-			"write_stored_zstd":                     50,
-			"write_stored_identity":                 50,
-			"write_wire_scripts":                    100,
-			"read_inner_offset_identity":            60,
-			"read_inner_offset_zstd":                60,
-			"read_out_of_range":                     40,
-			"read_faulty":                           60,
-			"read_exhaustive_reads":                 1500,
-			"batch_update_mixed":                    20,
-			"batch_read_mixed":                      20,
-			"batch_read_oversize":                   5,
-			"find_missing_proper_subset":            20,
-			"find_missing_hostile_backend":          15,
-			"b2b_ops":                               500,
-			"b2b_failing_ops":                       80,
-			"b2b_zstd_negotiated":                   20,
-			"ac_ops":                                100,
-			"concurrent_roundtrips":                 100,
+			"write_valid":                                   150,
+			"write_invalid_rejected":                        250,
+			"write_invalid_only_first-offset-nonzero":       25,
+			"write_invalid_only_offset-gap":                 10,
+			"write_invalid_only_offset-overlap":             8,
+			"write_invalid_only_no-finish-write":            12,
+			"write_invalid_only_content-mismatch":           12,
+			"write_invalid_only_size-mismatch":              25,
+			"write_invalid_only_zstd-stream-invalid":        10,
+			"write_invalid_only_malformed-resource-name":    20,
+			"write_invalid_only_stream-error-before-finish": 20,
+			"write_ambiguous_messages-after-finish":         25,
+			"write_stored_zstd":                             80,
+			"write_stored_identity":                         80,
+			"write_wire_scripts":                            60,
+			"read_inner_offset_identity":                    400,
+			"read_inner_offset_zstd":                        400,
+			"read_out_of_range":                             100,
+			"read_faulty":                                   60,
+			"read_exhaustive_reads":                         4000,
+			"batch_update_mixed":                            100,
+			"batch_read_mixed":                              35,
+			"batch_read_oversize":                           50,
+			"find_missing_proper_subset":                    60,
+			"find_missing_hostile_backend":                  25,
+			"b2b_ops":                                       300,
+			"b2b_failing_ops":                               150,
+			"b2b_zstd_negotiated":                           15,
+			"ac_ops":                                        100,
+			"concurrent_roundtrips":                         60,
 		},
 		Assumptions: []string{
 			"the backend behind the servers consumes an upload completely before storing it (lib/model.Store), so the validation built into the buffer handed to Put decides; a backend that acknowledges without reading is outside this check",
@@ -90,16 +93,16 @@ func main() {
 	})
 }
 
-// only returns n, or 0 when the debugging aid C14_ONLY=<group> selects another group.
+// only returns n, or 0 when the debugging aid C14_ONLY=<group>[,<group>...] leaves the group out.
 func only(group string, n int) int {
-	if g := os.Getenv("C14_ONLY"); g != "" && g != group {
+	if g := os.Getenv("C14_ONLY"); g != "" && !strings.Contains(","+g+",", ","+group+",") {
 		return 0
 	}
 	return n
 }
 
 func body(w *run.Worker) {
-	w.Cases("write_direct", only("write_direct", w.N(2400, 30000)), func(c *run.Case) { caseWriteDirect(c, w) })
+	w.Cases("write_direct", only("write_direct", w.N(2000, 30000)), func(c *run.Case) { caseWriteDirect(c, w) })
 	w.Cases("read_direct", only("read_direct", w.N(1200, 12000)), func(c *run.Case) { caseReadDirect(c, w) })
 	// Every offset of every small size: sizes are dealt round-robin to the workers.
 	maxSize := 31
@@ -123,7 +126,7 @@ func body(w *run.Worker) {
 		caseBatch(c, w, env)
 	})
 	w.Cases("write_wire", only("write_wire", w.N(320, 3000)), func(c *run.Case) { caseWriteWire(c, w) })
-	w.Cases("b2b", only("b2b", w.N(240, 2400)), func(c *run.Case) { caseBackToBack(c, w) })
+	w.Cases("b2b", only("b2b", w.N(200, 2400)), func(c *run.Case) { caseBackToBack(c, w) })
 	w.Cases("ac", only("ac", w.N(96, 800)), func(c *run.Case) { caseActionCache(c, w) })
 	w.Cases("concurrent", only("concurrent", w.N(16, 120)), func(c *run.Case) { caseConcurrent(c, w) })
 }
